@@ -106,6 +106,7 @@ func render(path string, e fentry, pkgText map[string]string) []byte {
 				fmt.Fprintf(&sb, "__throws.push([__filename, %d, __log.length]); throw __thrown(%d);\n", i.k, i.k)
 			}
 		}
+		sb.WriteString("__done[__filename] = (__done[__filename] || 0) + 1;\n") // reached only by a body that runs to its end
 		return []byte(sb.String())
 	case "json":
 		if e.valid {
@@ -120,7 +121,7 @@ func render(path string, e fentry, pkgText map[string]string) []byte {
 	return nil
 }
 
-const prelude = `var __count = {}, __log = [], __ids = new Map(), __thrownObjs = {}, __throws = [];
+const prelude = `var __count = {}, __log = [], __ids = new Map(), __thrownObjs = {}, __throws = [], __done = {};
 function __bump(f){ __count[f] = (__count[f]||0) + 1 }
 function __id(o){ if (!__ids.has(o)) __ids.set(o, __ids.size); return __ids.get(o) }
 function __keys(o){ return Object.keys(o).filter(function(k){ return /^k\d+$/.test(k) }).map(function(k){ return [parseInt(k.slice(1)), o[k]] }) }
@@ -265,6 +266,29 @@ func main() {
 					return "../app/" + target
 				}
 			}
+			// a cycle that closes and an outer module that throws only afterwards: the members that completed stay cached with the
+			// exports they handed out, the one that threw is evaluated afresh (the later calls require all of them again)
+			forced := map[string][]instr{}
+			if len(names) >= 2 && r.Chance(25) {
+				i1 := r.Intn(len(names))
+				i2 := (i1 + 1 + r.Intn(len(names)-1)) % len(names)
+				a, b := names[i1], names[i2]
+				pa := []instr{{op: "bump"}, {op: "set", k: 0, v: 1 + r.Intn(8)}, {op: "req", req: spell(b)}}
+				if r.Chance(50) {
+					pa = append(pa, instr{op: "set", k: 1, v: r.Intn(9)})
+				}
+				pa = append(pa, instr{op: "throw", k: r.Intn(5)})
+				pb := []instr{{op: "bump"}, {op: "req", req: spell(a), catch: r.Chance(30)}, {op: "set", k: 2, v: r.Intn(9)}}
+				if len(names) >= 3 && r.Chance(40) { // a longer cycle: a -> b -> c -> a
+					c := names[(i2+1)%len(names)]
+					if c != a && c != b {
+						pb = []instr{{op: "bump"}, {op: "req", req: spell(c)}, {op: "set", k: 2, v: r.Intn(9)}}
+						forced[c] = []instr{{op: "bump"}, {op: "req", req: spell(a)}, {op: "set", k: 1, v: r.Intn(9)}}
+					}
+				}
+				forced[a], forced[b] = pa, pb
+				out.Count("scenario", "cycle-closes-then-outer-throws")
+			}
 			for _, nm := range names {
 				var prog []instr
 				prog = append(prog, instr{op: "bump"})
@@ -280,8 +304,11 @@ func main() {
 							prog = append(prog, instr{op: "throw", k: r.Intn(5)})
 						}
 					default:
-						prog = append(prog, instr{op: "req", req: r.Pick([]string{"./e.json", "./e", "./nope", "./dirm", "lib", "./bad.json"}), catch: r.Chance(50)})
+						prog = append(prog, instr{op: "req", req: r.Pick([]string{"./e.json", "./e", "./nope", "./dirm", "lib", "./bad.json", "./oi", "./dirm/index"}), catch: r.Chance(50)})
 					}
+				}
+				if fp, ok := forced[nm]; ok {
+					prog = fp
 				}
 				switch nm {
 				case "pk":
@@ -321,6 +348,20 @@ func main() {
 				files["/vr/app/bad.json"] = fentry{kind: "json", valid: false}
 			}
 			files["/vr/app/dirm/index.js"] = jsmod(instr{op: "bump"}, instr{op: "set", k: 1, v: 1})
+			// files literally named "index", without an extension: a directory is loaded as index.js, then index.json - never as
+			// "index" (only the request "<dir>/index" itself reaches that file)
+			if r.Chance(25) {
+				files["/vr/app/dirm/index"] = jsmod(instr{op: "bump"}, instr{op: "set", k: 1, v: 6})
+				out.Count("scenario", "extensionless-index-next-to-index.js")
+			}
+			if _, ok := files["/vr/app/ix/index.js"]; ok && r.Chance(30) {
+				files["/vr/app/ix/index"] = jsmod(instr{op: "bump"}, instr{op: "set", k: 2, v: 6})
+				out.Count("scenario", "extensionless-index-next-to-index.js")
+			}
+			if r.Chance(25) {
+				files["/vr/app/oi/index"] = jsmod(instr{op: "bump"}, instr{op: "set", k: 0, v: 6})
+				out.Count("scenario", "directory-with-only-an-extensionless-index")
+			}
 			files["/vr/app/node_modules/lib/package.json"] = fentry{kind: "pkg", main: "main.js"}
 			pkgText["/vr/app/node_modules/lib/package.json"] = `{"main": "main.js"}`
 			files["/vr/app/node_modules/lib/main.js"] = jsmod(instr{op: "bump"}, instr{op: "req", req: "../../" + names[0], catch: true})
@@ -336,7 +377,7 @@ func main() {
 				}
 				req := spell(names[r.Intn(len(names))])
 				if r.Chance(15) {
-					req = r.Pick([]string{"./e.json", "./dirm", "lib", "./dirm/index", "./bad.json", "./missing"})
+					req = r.Pick([]string{"./e.json", "./dirm", "lib", "./dirm/index", "./bad.json", "./missing", "./oi", "./oi/index", "./dirm/"})
 				}
 				if kind == "go" && !strings.HasPrefix(req, "/") {
 					req = "/vr/app/" + strings.TrimPrefix(req, "./") // Go-side Require resolves against "."
@@ -372,6 +413,12 @@ func main() {
 				add("m/lib.min.js", jsmod())
 				add("m/data.v2.json", fentry{kind: "json", valid: true, v: 4})
 				add("m/lib.min", jsmod())
+				// files literally named "index" (no extension): a directory is its index.js, then its index.json, never its "index"
+				if r.Chance(50) {
+					add("m/index", jsmod())
+					add("m/lib/index", jsmod())
+					out.Count("scenario", "extensionless-index-in-a-directory")
+				}
 				// the directory a "main" may name can be a package of its own: its package.json plays no part in resolving the outer main
 				if r.Chance(35) {
 					files[b+"/m/lib/alt.js"] = jsmod()
@@ -441,8 +488,12 @@ func main() {
 					}
 				}
 			}
+			if r.Chance(35) { // a directory that holds nothing but an extensionless "index": not a module
+				files["/vr/app/oi/index"] = jsmod()
+				out.Count("scenario", "directory-with-only-an-extensionless-index")
+			}
 			reqs := []string{"./m", "m", "/vr/app/m", "../app/m", "./m.js", "./m/lib", "m/lib", "m/lib", "./m/w", "./m/w.js", "./sub/z", "x/y", "./sub/../m", "/vr/app/sub/m", "./nothing", "nothing", "./m/index",
-				"/vr/c", "/vr/c.js", "/vr/app/c2", "/vr/c"}
+				"/vr/c", "/vr/c.js", "/vr/app/c2", "/vr/c", "./oi", "/vr/app/oi", "./oi/index", "./m/lib/index"}
 			ncalls := 2 + r.Intn(5)
 			// the directory a "main" names, required on its own first: what that request resolved to must not answer the probe of the outer main
 			if _, has := files["/vr/app/m/lib/package.json"]; has && r.Chance(60) {
@@ -474,7 +525,10 @@ func main() {
 				}
 			}
 			reqs := []string{"util", "node:util", "./util", "./util.js", "gnat", "rnat", "shared", "xcore", "node:xcore", "xonly", "node:xonly", "node:gnat", "node:nope", "plain", "./plain", "buffer", "node:buffer",
-				"shared2", "node:shared2", "dir/gsub", "dir/rsub", "./gnat", "node:rnat", "cyca", "node:cyca", "cycb", "node:cycb", "selfy", "node:selfy", "node:cyca", "flaky", "node:flaky", "flaky", "node:flaky"}
+				"shared2", "node:shared2", "dir/gsub", "dir/rsub", "./gnat", "node:rnat", "cyca", "node:cyca", "cycb", "node:cycb", "selfy", "node:selfy", "node:cyca", "flaky", "node:flaky", "flaky", "node:flaky",
+				// spellings that are NOT the registered name: a name is looked up as written (dot segments behind node: do not cancel the
+				// prefix, a trailing or doubled separator does not name the core module)
+				"node:x/../gnat", "node:/../rnat", "node:x/../util", "node:x/../dir/rsub", "util/", "gnat//", "dir//rsub", "dir/x/../rsub", "node:util/", "node:./util", "xcore/", "node:xcore/."}
 			ncalls := 3 + r.Intn(7)
 			for i := 0; i < ncalls; i++ {
 				kind := "js"
@@ -566,10 +620,17 @@ func main() {
 			continue
 		}
 		// ---- collect ----
-		lv, _ := vm.RunString(`JSON.stringify([__log, __count, __throws])`)
+		lv, _ := vm.RunString(`JSON.stringify([__log, __count, __throws, __done])`)
 		var got []interface{}
 		jsonUnmarshal(lv.String(), &got)
 		logArr := got[0].([]interface{})
+		// log-only oracle: a module body runs to its end at most once per runtime (a second evaluation is due only to a module
+		// whose evaluation failed, and that one did not reach its end)
+		for f, n := range got[3].(map[string]interface{}) {
+			if n.(float64) > 1 {
+				out.Fail(id, "module-body-completed-twice", map[string]interface{}{"file": f, "completions": n, "evaluations": got[1].(map[string]interface{})[f], "calls": calls, "log": logArr})
+			}
+		}
 		// log-only oracle: the value a module body throws is what the require() that was evaluating it reports next
 		for _, t := range got[2].([]interface{}) {
 			tr := t.([]interface{})
